@@ -108,3 +108,67 @@ package reporter
 //@ func GitLabReporter.IsEqual [C17]
 //@   ensures result <==> existing.path == pending.path && existing.line == pending.line &&
 //@              pureCall("strings.Trim", existing.text, "\n") == pureCall("strings.Trim", pending.text, "\n")
+
+// ---------------------------------------------------------------------------------------------
+// C11: results do not depend on worker count or scheduling. The schedule only decides the order in which reports
+// reach Summary.Report; the result is order-independent if isEqual is an equivalence that observes every
+// rendered field. (Data-race freedom is outside this technique.)
+
+//@ spec func sameDiag(a diags.Diagnostic, b diags.Diagnostic) bool = a.FirstColumn == b.FirstColumn && a.LastColumn == b.LastColumn && a.Message == b.Message
+
+//@ func isSameDiagnostics [C11]
+//@   ensures result <==> len(sa) == len(sb) && (forall i int :: 0 <= i && i < len(sa) ==> (exists j int :: 0 <= j && j < len(sb) && sameDiag(sa[i], sb[j])))
+//@   loop 1 invariant 0 <= iter && iter <= len(sa) && len(sa) == len(sb)
+//@   loop 1 invariant forall i int :: 0 <= i && i < iter ==> (exists j int :: 0 <= j && j < len(sb) && sameDiag(sa[i], sb[j]))
+//@   loop 2 invariant 0 <= iter && iter <= len(sb) && len(sa) == len(sb) && 1 <= iter1 && iter1 <= len(sa) && a == sa[iter1-1] && !ok
+//@   loop 2 invariant forall i int :: 0 <= i && i < iter1-1 ==> (exists j int :: 0 <= j && j < len(sb) && sameDiag(sa[i], sb[j]))
+//@   loop 2 invariant forall j int :: 0 <= j && j < iter ==> !sameDiag(a, sb[j])
+
+// Reports that isEqual identifies must agree on every field that is rendered or decides the exit status.
+//@ lemma isEqual_observes_rendered_fields [C11]
+//@   var a, b Report
+//@   let r = a.isEqual(b)
+//@   assert r ==> a.Problem.Severity == b.Problem.Severity
+//@   assert r ==> a.Problem.Reporter == b.Problem.Reporter && a.Problem.Summary == b.Problem.Summary
+//@   assert r ==> a.Path.Name == b.Path.Name && a.Path.SymlinkTarget == b.Path.SymlinkTarget && a.Owner == b.Owner
+//@   assert r ==> a.Problem.Lines.First == b.Problem.Lines.First && a.Rule.Lines == b.Rule.Lines
+//@   assert r ==> len(a.Problem.Diagnostics) == len(b.Problem.Diagnostics)
+
+//@ lemma isEqual_observes_last_line [C11]
+//@   var a, b Report
+//@   let r = a.isEqual(b)
+//@   assert r ==> a.Problem.Lines.Last == b.Problem.Lines.Last
+
+//@ lemma isEqual_observes_details [C11]
+//@   var a, b Report
+//@   let r = a.isEqual(b)
+//@   assert r ==> a.Problem.Details == b.Problem.Details
+
+//@ lemma isEqual_reflexive [C11]
+//@   var a Report
+//@   let r = a.isEqual(a)
+//@   assert r
+
+//@ lemma isEqual_transitive [C11]
+//@   var a, b, c Report
+//@   let r1 = a.isEqual(b)
+//@   let r2 = b.isEqual(c)
+//@   let r3 = a.isEqual(c)
+//@   assert r1 && r2 ==> r3
+
+//@ lemma isEqual_symmetric [C11]
+//@   var a, b Report
+//@   let r1 = a.isEqual(b)
+//@   let r2 = b.isEqual(a)
+//@   assert r1 == r2
+
+// Summary.Report keeps a report iff no earlier kept report is isEqual to it.
+//@ func Summary.hasReport [C11]
+//@   ghost hits int
+//@   ghost calls int
+//@   after call isEqual set hits = (result0 ? hits + 1 : hits)
+//@   after call isEqual set calls = calls + 1
+//@   at call isEqual assert arg0 == s.reports[iter-1] && arg1 == r
+//@   loop 1 invariant 0 <= iter && iter <= len(s.reports) && hits == 0 && calls == iter
+//@   ensures result <==> hits > 0
+//@   ensures !result ==> calls == len(s.reports)
